@@ -320,7 +320,7 @@ def judge(sq, res):
             v.append((f"C18:jobmap-raised:{o['raised'].split(':')[0]}", f"jobmap raised {o['raised']} ({tag}, destination keys {sorted(prev['dst'])}, source {sorted(src)})"))
 
         def is_valid(c):
-            return c is not None and c[1] == 0 and (c[0] == arg or not strict)
+            return c is not None and c[1] == 0 and c[2] and (c[0] == arg or not strict)     # same input, success = exit 0 with the return file
         for key, L in src.items():
             for nm in names_of(key, L, vec):
                 ex = o["count"].get(nm, 0) - prev["count"].get(nm, 0)
@@ -340,6 +340,8 @@ def judge(sq, res):
                         sig = "C18:damaged-cache-reused"
                     elif c0[1] != 0:
                         sig = "C18:failed-output-reused"
+                    elif not c0[2]:
+                        sig = "C18:incomplete-output-reused"
                     else:
                         sig = "C18:stale-cache-reused"
                     v.append((sig, f"{nm} not executed (arg={arg}, strict_hash={strict}) although its cached output was {c0}"))
